@@ -460,6 +460,7 @@ def read_request(S, extra=None):
     md_present = S.choose(2) == 1
     md = SObj(None, kind="KVMeta")
     S.handlers["KVMeta.get"] = md_get
+    S.handlers["KVMeta.__getitem__"] = lambda S, m, key: md_get(S, m, key)
     S.handlers["KVMeta.__bool__"] = lambda S, m: True
     # the request batch: 0..2 columns with arbitrary (possibly equal) names, arbitrary row count
     n_cols = S.choose(3)
